@@ -298,8 +298,19 @@ func (g *FnGen) binop(i *ssa.BinOp) {
 			return
 		}
 		if b, ok := xt.Underlying().(*types.Basic); ok && b.Info()&types.IsString != 0 {
-			g.note("string ordering comparison treated as unknown")
-			g.unknown(i)
+			g.note("string ordering: uninterpreted strict total order str-lt")
+			var t string
+			switch i.Op {
+			case token.LSS:
+				t = fmt.Sprintf("(str-lt %s %s)", x.T, y.T)
+			case token.GTR:
+				t = fmt.Sprintf("(str-lt %s %s)", y.T, x.T)
+			case token.LEQ:
+				t = fmt.Sprintf("(not (str-lt %s %s))", y.T, x.T)
+			default:
+				t = fmt.Sprintf("(not (str-lt %s %s))", x.T, y.T)
+			}
+			g.define(i, t, "Bool")
 			return
 		}
 		g.unknown(i) // floats
